@@ -1,6 +1,8 @@
 import UtlsVerif.Line
 import UtlsVerif.Drv.C24
 import UtlsVerif.Drv.C36
+import UtlsVerif.Drv.C04
+import UtlsVerif.Drv.C30
 /-! `utlsmodel` — reads case lines on stdin, prints one verdict per line. Core Lean only. -/
 open Line
 
@@ -11,6 +13,11 @@ def dispatch (c : Case) : Verdict :=
   | "tps" => Drv.C24.tps c
   | "lru" => Drv.C36.lru c
   | "lru_conc" => Drv.C36.lruConc c
+  | "grease_val" => Drv.C04.greaseVal c
+  | "grease_hello" => Drv.C04.greaseHello c
+  | "grease_quic" => Drv.C04.greaseQuic c
+  | "prng" => Drv.C30.prng c
+  | "prng_conc" => Drv.C30.prngConc c
   | f => .bad s!"unknown family {f}"
 
 partial def loop (h : IO.FS.Stream) (out : IO.FS.Stream) : IO Unit := do
